@@ -672,7 +672,8 @@ class Check:
         At the end: violations found elsewhere are still reported (exit 1); if there are none,
         the analysis error makes the run exit 2."""
         covered_by = kw.pop("covered_by", None)
-        own_rules = kw.pop("rules", ())
+        own_rules = tuple(kw.pop("rules", ()))
+        before = {rid: r["instances"] for rid, r in self.rules.items()}
         try:
             r = fn(*args, **kw)
             for rid in own_rules:
@@ -687,7 +688,9 @@ class Check:
                 # now): the form-specific rule not recognising the new form is not an analysis failure
                 self.note(f"{getattr(fn, '__name__', 'rule')} does not recognise the current form ({str(e)[:160]}); the obligation is decided by {covered_by}")
                 self.covered_groups.add(getattr(fn, "__name__", "rule"))
-                for rid in own_rules:
+                # the rules this group contributes to: named by the caller, registered by the group, or counted up by it before it stopped
+                touched = {rid for rid, r in self.rules.items() if rid not in before or r["instances"] != before[rid]}
+                for rid in set(own_rules) | touched:
                     if rid in self.rules:
                         self.rules[rid]["min"] = 0  # decided by the covering group on this tree
                 return None
